@@ -94,7 +94,7 @@ func (c *checker) place(cs *caseJ) (*caseRun, error) {
 
 // startSites loads one casket instance with two catch-all sites holding the rules of all given cases.
 func (c *checker) startSites(crs []*caseRun) (*hx.Site, *env, string, error) {
-	e := &env{fx: c.fx, slack: 4 * time.Second}
+	e := &env{fx: c.fx, slack: 8 * time.Second}
 	var rules [3][]string
 	for _, cr := range crs {
 		for r := range cr.c.Rules {
